@@ -231,7 +231,8 @@ _RANGE = re.compile(r"\d[^-]*-[^-]*\d", re.S)
 _BRACKET_KEY = re.compile(r">>[ \t]*\[[^:\n]*\][ \t]*(:|$)", re.M)
 _BLOCK_COMMENT = re.compile(r"\[-.*?-\]", re.S)
 _LINE_COMMENT = re.compile(r"--[^\n]*")
-_NUMBER_WORD = re.compile(r"(\d[\d.]*)(\S*)(?:\s+(\S+))?")
+# every digit run is examined (the code examines a subset): glued suffix, else the next word
+_NUMBER_WORD = re.compile(r"(\d[\d.]*)(\S*)(?=(?:\s+(\S+))?)")
 _TIMER_BRACES = re.compile(r"([^@#~{]*)\{([^}]*)\}", re.S)
 _TIME_QTY = re.compile(r"\s*[\d./ ]*\d[\d./ ]*\s*%\s*(\S+)\s*\Z")
 # characters that cannot begin a single-word timer name (lexer: not Word/Int)
